@@ -46,6 +46,11 @@ def seqExpected (kind : String) (s : Sem) (op : List String) : Option (Sem × St
   | ["finish", "panic"] =>
     let r := s.step .recv
     some (r.1, if r.2 = .ok then "ok" else "none", if r.2 = .ok then "finish-panic-ok" else "finish-none")
+  | ["wait"] =>
+    -- TaskRunner.Wait: the wait-group count is the number of admitted, unfinished tasks
+    if kind ≠ "runner" then none
+    else if s.used = 0 then some (s, "returns", "wait-returns-idle")
+    else some ({ s with used := 0 }, "blocked", "wait-blocks-until-all-done")
   | ["probe"] => some (s, s!"free={s.free}", if s.used = 0 then "probe-empty" else if s.used = s.cap then "probe-full" else "probe-partial")
   | _ => none
 
@@ -72,6 +77,8 @@ def seqEvents (op : List String) (obs : List String) : Option (List SeqEv) :=
   | ["return"], ["ok", "woke=0"] => some [.retOk]
   | ["return"], ["ok", "woke=lost"] => some [.retOk]
   | ["return"], ["ok", "woke=timeout"] => some [.retOk, .refuse]
+  | ["wait"], ["returns"] => some []
+  | ["wait"], ["blocked"] => some [.drained]
   | _, _ => (seqEvent op obs).map fun e => [e]
 
 /-! ### sequential replay through the site PROGRAMS (the tables the theorems are about) -/
@@ -144,6 +151,16 @@ structure IRSeq where
 def IRSeq.op (kind : String) (m : IRSeq) (op : List String) : Option (IRSeq × String) :=
   match op with
   | ["probe"] => some (m, s!"free={m.st.cap - m.st.used}")
+  | ["wait"] =>
+    -- a `Wait` thread: passes `wgWait` only when the count is 0; otherwise the harness lets every task end first
+    let t := m.next
+    let (s1, stop1) := runThread m.prog 64 m.st t [false]
+    if stop1 = .halt then some ({ m with st := s1, next := t + 1 }, "returns")
+    else if stop1 ≠ .blocked then some (m, "model-wait-neither-returns-nor-blocks")
+    else
+      let s2 := m.holders.foldl (fun st h => (finishThread m.prog st h false).1) s1
+      let (s3, stop3) := runThread m.prog 64 s2 t []
+      some ({ m with st := s3, next := t + 1, holders := [] }, if stop3 = .halt then "blocked" else "model-wait-stuck")
   | ["bwait"] =>
     -- the first `l.TryBorrow()` of Borrow (row 0): admitted → runs on into the guarded function;
     -- full → the thread stands at the `WaitWithTimeout` row until a Return signals it
@@ -229,7 +246,7 @@ def runSeq (r : Report) (s : Section) (kind : String) (n : Nat) : Report := Id.r
         if m'.st.used ≠ sem.used then r := r.mismatch s.idx l.idx s!"site-program used={m'.st.used}" s!"sem used={sem.used}"
         r := r.addCover s!"{kind}-site-program-ops"
         ir := some m'
-    match seqEvents l.op l.obs with
+    match (if l.op = ["wait"] ∧ (l.obs.head? = some "returns-early" ∨ l.obs = ["stuck"]) then some [] else seqEvents l.op l.obs) with
     | none => r := r.mismatch s.idx l.idx "parsable-observation" impl
     | some evs =>
       for ev in evs do
@@ -237,6 +254,11 @@ def runSeq (r : Report) (s : Section) (kind : String) (n : Nat) : Report := Id.r
         | some msg => r := r.violation s.idx l.idx s!"kind={kind} op=[{joinSp l.op}] impl=[{impl}] {msg}"
         | none => pure ()
         mon := mon.step ev
+      if l.op = ["wait"] then
+        match l.obs with
+        | "returns-early" :: _ => r := r.violation s.idx l.idx s!"kind={kind} Wait returned while admitted tasks were still running ({impl})"
+        | ["stuck"] => r := r.violation s.idx l.idx s!"kind={kind} Wait does not return although no admitted task is running any more (wait-group count leaked)"
+        | _ => pure ()
       -- a Return that succeeded while borrowers are parked has to hand the permit on
       if l.op = ["return"] ∧ waiters > 0 ∧ (l.obs = ["ok", "woke=0"] ∨ l.obs = ["ok", "woke=lost"] ∨ l.obs = ["ok"]) then
         r := r.violation s.idx l.idx s!"kind={kind} Return woke none of the {waiters} parked borrowers: a permit is free while requests stay blocked (lost wake-up)"
